@@ -58,6 +58,7 @@ func galFRows(rk *ranker, fields []string, rows []obsRow) string {
 }
 
 func runDBSortCase(e *Env, c *jDBSortCase) error {
+	e.Running(c)
 	dir := tempDir()
 	defer rmDir(dir)
 	t := &c.Table
